@@ -106,6 +106,13 @@ def check_function(out, c):
     out.applies('hydro-ordered')
     if z[0] != 0.0 or not np.all(np.diff(z) > 0):
         out.fail('hydro-ordered', 'altitude does not start at zero / increase strictly')
+    # the same structure expressed in kilometres
+    out.applies('hydro-units')
+    with np.errstate(all='ignore'):
+        zk, Hk, gk, dzk = cut(out, 'calculate_scale_properties@km', pl.calculate_scale_properties,
+                              T.copy(), Pl.copy(), mu.copy(), 'km')
+    if not close(zk, z / 1000.0, rtol=1e-12) or not close(dzk, dz / 1000.0, rtol=1e-12) or not close(Hk, H / 1000.0, rtol=1e-12):
+        out.fail('hydro-units', 'kilometre result is not the metre result / 1000 (max rel %.2e)' % maxrel(zk, z / 1000.0))
     out.nontrivial = bool(n >= 3 and (len(set(c['T'])) > 1 or len(set(c['mu'])) > 1))
 
 
@@ -190,6 +197,22 @@ def check_model(out, c):
     elif array:
         out.cls('array-levels-not-decreasing')
     out.nontrivial = bool(nl >= 3 and (np.ptp(T) > 0 or np.ptp(mu) > 0))
+    # ---- history: the pressure range changed through the fitting parameters of the same model
+    if not array and nl >= 2:
+        out.cls('re-ranged')
+        new_min, new_max = W.pmin * 0.037, W.pmax * 2.9
+        m['atm_min_pressure'] = new_min
+        m['atm_max_pressure'] = new_max
+        with np.errstate(all='ignore'):
+            cut(out, 'model@re-ranged', m.model)
+        P2 = np.asarray(m.pressureProfile, dtype=float)
+        Pl2 = np.asarray(m.pressure.pressure_profile_levels, dtype=float)
+        out.applies('re-ranged-levels')
+        want2 = np.logspace(math.log10(new_max), math.log10(new_min), nl + 1)
+        if Pl2.shape != (nl + 1,) or not close(Pl2, want2, rtol=1e-12) or not close(P2, np.sqrt(Pl2[:-1] * Pl2[1:]), rtol=1e-12):
+            out.fail('re-ranged-levels', 'after changing the pressure range the layers are not the geometric mean of the new levels')
+        if np.shape(m.densityProfile) == (nl,) and not close(m.densityProfile, P2 / (ref.K_BOLTZ * np.asarray(m.temperatureProfile)), rtol=1e-12):
+            out.fail('re-ranged-density', 'n != P/kT after the range change')
 
 
 def check(case):
